@@ -120,7 +120,7 @@ package notify
 // (so the log stage after the retry stage is reached only after the delivery succeeded).
 //@ func (MultiStage).Exec
 //@   props C20 C02
-//@   nosafe
+//@   assumes forall i int :: 0 <= i && i < len(ms) ==> ms[i] != nil
 //@   at call Stage).Exec assert [in-list-order] count("Stage).Exec") < len(ms) && arg0 == ms[count("Stage).Exec")]
 //@   at call Stage).Exec assert [stop-at-first-error] !called("Stage).Exec") || ret2("Stage).Exec") == nil
 //@   at call Stage).Exec assert [not-on-empty-batch] len(arg3) > 0
@@ -133,7 +133,6 @@ package notify
 // and only then record the notification - in this order.
 //@ func createReceiverStage
 //@   props C20 C04
-//@   nosafe
 //@   ensures [one-pipeline-per-integration] typeis(result, FanoutStage) && len(unbox(result, FanoutStage)) == len(integrations)
 //@   ensures [stage-order] forall k int :: 0 <= k && k < len(integrations) ==> (typeis(unbox(result, FanoutStage)[k], MultiStage)
 //@             && len(unbox(unbox(result, FanoutStage)[k], MultiStage)) == 4
@@ -159,7 +158,6 @@ package notify
 //@ func (FanoutStage).Exec
 //@   props C20
 //@   abstract
-//@   nosafe
 //@   ensures [returns-input] result1 == alerts && result0 == ctx
 //@   ensures [every-integration-started-and-awaited] count("go.stmt") == len(fs) && called("WaitGroup).Wait")
 //@   at call WaitGroup).Add assert [waits-for-all] arg1 == len(fs)
@@ -179,7 +177,7 @@ package notify
 // C04/C20: the notification is recorded with an expiry of twice the repeat interval
 //@ func (SetNotifiesStage).Exec
 //@   props C04 C20
-//@   nosafe
+//@   requires tracer != nil && n.nflog != nil
 //@   after call Tracer).Start assume res0 != nil && res1 != nil
 //@   at call NotificationLog).Log assert [expiry-twice-repeat] called("RepeatInterval") && arg6 == 2 * ret("RepeatInterval")
 //@   at call NotificationLog).Log assert [logs-what-was-sent] arg3 == ret("FiringAlerts") && arg4 == ret("ResolvedAlerts") && arg1 == n.recv
@@ -227,7 +225,6 @@ package notify
 //@ spec pipe(r RoutingStage, name string) MultiStage = unbox(r[name], MultiStage)
 //@ func (*PipelineBuilder).New
 //@   props C02 C03 C15 C20
-//@   nosafe
 //@   assumes pb != nil
 //@   ensures [one-pipeline-per-receiver] forall name string :: (name in receivers) ==> name in result
 //@   ensures [mute-before-delivery] forall name string :: (name in result) ==> typeis(result[name], MultiStage) && len(pipe(result, name)) == 6
@@ -254,7 +251,7 @@ package notify
 //@ uf resolvedNow(*alert.Alert) bool
 //@ func partitionAlertsByState
 //@   props C04 C05
-//@   nosafe
+//@   requires hashFn != nil
 //@   assumes forall i int :: 0 <= i && i < len(alerts) ==> alerts[i] != nil
 //@   after call dynamic:param:hashFn assume res0 == hashOf(arg0)
 //@   after call Alert).Resolved assume res0 == resolvedNow(alerts[rangeindex1 + 1])
@@ -274,7 +271,7 @@ package notify
 //@ func (*DedupStage).Exec
 //@   props C04
 //@   nosafe
-//@   requires n != nil && n.rs != nil
+//@   requires n != nil && n.rs != nil && n.hash != nil
 //@   opaque notify.GroupKey notify.RepeatInterval notify.Now notify.With nflog.Q nflog.NewStore
 //@   noeffect notify.GroupKey notify.RepeatInterval notify.Now notify.With nflog.Q nflog.NewStore NotificationLog).Query dynamic:field:now Tracer).Start
 //@   at call needsUpdate assert [entry-of-this-group-and-receiver] arg1 == (len(ret("NotificationLog).Query")) == 1 ? ret("NotificationLog).Query")[0] : nil) && len(ret("NotificationLog).Query")) <= 1
